@@ -98,6 +98,24 @@ def ListShaped (g : Graph) (resp : Option (List Prop')) : Bool :=
       | none => false
     | _ => false
 
+/-- the producer's check (`checkListMethod` in `internal/j5s/j5convert/service.go`, since `fix:`
+57821b0), run for every method whose request has a `j5.list.v1.QueryRequest` property: there is a
+response, and among its declared properties exactly one is an array, whose items are an object
+field (a reference or an inline object) -/
+def compileListShapeOk (resp : Option (List Prop')) : Bool :=
+  match resp with
+  | none => false
+  | some props =>
+    match arrayElems props with
+    | [.object _] => true
+    | _ => false
+
+/-- what the schema reader gives for the response of a compiled method: the object field of an
+array's items refers to an object of the schema set (`assertRefsLink` + the reader's typing of
+`ObjectField.Ref`) -/
+def ItemRefsOk (g : Graph) (props : List Prop') : Prop :=
+  ∀ r, .object r ∈ arrayElems props → ∃ n, g[r]? = some n ∧ n.kind = .object
+
 /-- no property of the graph carries the "bad enum default" mark -/
 def NoBadDefaults (g : Graph) : Prop := ∀ node ∈ g, ∀ p ∈ node.props, tagBadDefault p.tag = false
 
